@@ -1,22 +1,35 @@
 """C16 -- region graphs (structural clauses)."""
 from ..core import Ctx, Ob, PropSpec
-from ..rules import r9
+from ..rules import extra2, r8, r9
 
 
 def run(ctx: Ctx) -> list[Ob]:
-    return r9.r9(ctx, ["cirkit.templates.region_graph.graph.RegionGraph.build_circuit"]) + (r9.r9_sweep(ctx) if ctx.tier == "thorough" else [])
+    return [
+        extra2.must_call_on_all_paths(
+            ctx,
+            "cirkit.templates.region_graph.graph.RegionGraph.__init__",
+            "_check_structure",
+            "R6",
+            "validates-on-construction",
+            "every region graph handed out by the construction algorithms is validated only here",
+        )
+    ] + r8.run_guards(ctx, r8.GUARDS_REGION_GRAPH) + r9.r9(ctx, ["cirkit.templates.region_graph.graph.RegionGraph.build_circuit"]) + (r9.r9_sweep(ctx) if ctx.tier == "thorough" else [])
 
 
 SPEC = PropSpec(
     pid="C16",
     title="Region graphs are valid and build_circuit succeeds on them",
     decides=(
-        "R9 (path rule on the CFG of RegionGraph.build_circuit): no path leads from the true branch of isinstance(node, A) to an "
+        "R6 (must-call): every normal exit of RegionGraph.__init__ passes through _check_structure(), so every graph returned by any "
+        "construction algorithm has been validated; R8 (truth table on the CFG): _check_structure cannot complete an iteration when a "
+        "region has a non-partition child, a partition's scope differs from its region's, a node is of neither kind, a partition has "
+        "a non-region child, or the children of a partition do not cover its scope / overlap ('partitions that split their region "
+        "into disjoint non-empty regions covering it'); R9 (path rule on the CFG of RegionGraph.build_circuit): no path leads from the true branch of isinstance(node, A) to an "
         "assertion / branch that requires isinstance(node, B) for a class B disjoint from A without re-binding the loop variable or "
         "leaving the iteration -- such a path is a certain crash for every A node, i.e. build_circuit cannot succeed on any region "
         "graph for that argument combination. Thorough tier: the same rule over every isinstance-dispatched loop in cirkit/."
     ),
     not_decided="validity of the generated graphs as a function of run-time sizes / seeds; sufficiency of _check_structure; JSON round trip.",
     run=run,
-    floors={"R9": 1},
+    floors={"R9": 1, "R8": 6, "R6": 1},
 )
